@@ -242,6 +242,17 @@ func c12Check(c *fw.Ctx, start string, hist []Op, w *World) *fw.Finding {
 				}
 			}
 		}
+		// a URL that a clone was taken from (and that has not been touched since) still describes its own query
+		for i, wt := range w.Witnesses {
+			if q := wt.U.Query(); q != wt.Query {
+				f = fw.F("c12:original-query-changed", fmt.Sprint(i), "%s: the URL the clone was taken from now has Query()=%q, it was %q when it was cloned and has not been operated on since", how, q, wt.Query)
+				return
+			}
+			if got := readListNoUpdate(wt.U.SearchParams()); !pairsEqual(got, wt.ML) {
+				f = fw.F("c12:original-list-changed", fmt.Sprint(i), "%s: the parameter list of the URL the clone was taken from holds %q, expected %q (its Query()=%q is unchanged; it has not been operated on since it was cloned)", how, pairsString(got), pairsString(wt.ML), wt.U.Query())
+				return
+			}
+		}
 		// every handle ever obtained is the same live view and holds what the history implies
 		for i, h := range hs {
 			got := readListNoUpdate(h)
